@@ -27,5 +27,6 @@ CONSTANTS
  MaxAdds = 4
  MCIds <- IdsP
  MCNames <- NamesAll
-INVARIANTS CtlSafety SubscriberComplete
+INVARIANTS CtlSafety CancelAtMostOnce SubscriberComplete
+PROPERTIES StopCancels
 CHECK_DEADLOCK FALSE
